@@ -3,12 +3,14 @@ package main
 import (
 	"verifharness/checks/c01"
 	"verifharness/checks/c09"
+	"verifharness/checks/c16"
 	"verifharness/checks/c18"
 )
 
 func init() {
 	registry["C01"] = entry{"exploration", c01.Run}
 	registry["C09"] = entry{"exploration", c09.Run}
+	registry["C16"] = entry{"exploration", c16.Run}
 	registry["C18"] = entry{"exploration", c18.Run}
 	registry["C03"] = entry{"model_checking", c18.Run03A}
 }
